@@ -31,6 +31,7 @@ def register(reg):
     reg.add_extern('time.time', TimeTime)
     reg.add_extern('time.sleep', TimeSleep)
     register_re(reg)
+    register_codecs(reg)
 
 
 class ReSearch(Contract):
@@ -81,3 +82,21 @@ def register_re(reg):
     reg.add_extern('opaque.search', ReSearch)
     reg.add_extern('opaque.start', MatchStart)
     reg.add_extern('opaque.end', MatchEnd)
+
+
+class OpaqueFactory(Contract):
+    """codecs.getincrementaldecoder(enc) / calling the result: some non-None object (the codec machinery)."""
+    params = ['a']
+
+    def outcomes(self, v):
+        def mk(interp, pre):
+            from pyvc.values import VAny
+            from pyvc.spec import Val
+            return VAny(interp.ctx._const('codec', Val), notnone=True)
+        return [Ret(T.Any, make=mk)]
+
+
+def register_codecs(reg):
+    reg.add_extern('codecs.getincrementaldecoder', OpaqueFactory)
+    reg.add_extern('codecs.getincrementalencoder', OpaqueFactory)
+    reg.add_extern('opaque.__call__', OpaqueFactory)
